@@ -11,6 +11,7 @@ import (
 
 	"verif/internal/h"
 
+	"github.com/tuneinsight/lattigo/v6/circuits/ckks/bootstrapping"
 	"github.com/tuneinsight/lattigo/v6/circuits/common/polynomial"
 	"github.com/tuneinsight/lattigo/v6/core/rgsw"
 	"github.com/tuneinsight/lattigo/v6/core/rlwe"
@@ -475,6 +476,34 @@ func init() {
 			q = p
 		}
 		return &q, fmt.Sprintf("nQ=%d,nP=%d,ntt=%v,dist=%d", len(lit.Q), len(lit.P), lit.NTTFlag, mod(k[3], 4))
+	})
+
+	reg("bootstrapping.EvaluationKeys", func(p rlwe.Parameters, k [4]int, rng *rngs) (*bootstrapping.EvaluationKeys, string) {
+		// every subset of the six optional switching keys and of the optional key set
+		mask := mod(k[0]+12*k[1], 128)
+		if mod(k[2], 4) == 0 {
+			mask = []int{0, 127, 64, 63}[mod(k[3], 4)]
+		}
+		b := &bootstrapping.EvaluationKeys{}
+		for i, dst := range []**rlwe.EvaluationKey{&b.EvkN1ToN2, &b.EvkN2ToN1, &b.EvkRealToCmplx, &b.EvkCmplxToReal, &b.EvkDenseToSparse, &b.EvkSparseToDense} {
+			if mask>>i&1 == 1 {
+				*dst, _ = newEvk(p, [4]int{k[2] + i, k[3], 0, i}, rng)
+			}
+		}
+		if mask>>6&1 == 1 {
+			var rlk *rlwe.RelinearizationKey
+			if mod(k[3], 2) == 0 {
+				evk, _ := newEvk(p, [4]int{k[2], k[3], 0, 0}, rng)
+				rlk = &rlwe.RelinearizationKey{EvaluationKey: *evk}
+			}
+			gk, _ := newGalk(p, [4]int{k[2], k[3], 0, k[2]}, rng)
+			b.MemEvaluationKeySet = rlwe.NewMemEvaluationKeySet(rlk, gk)
+		}
+		n := 0
+		for i := 0; i < 7; i++ {
+			n += mask >> i & 1
+		}
+		return b, fmt.Sprintf("present=%d/7,keyset=%v", n, mask>>6&1 == 1)
 	})
 
 	// multiparty shares -------------------------------------------------------------------------------------------
